@@ -24,6 +24,13 @@ fn has_flag(args: &[String], name: &str) -> bool {
     args.iter().any(|a| a == name)
 }
 
+/// Directory for replay files / evidence: /verif/{replays,evidence} unless VERIF_SCRATCH names
+/// another base directory (used by the sensitivity driver so that committed evidence is not
+/// overwritten by runs against deliberately broken trees).
+fn out_base() -> String {
+    std::env::var("VERIF_SCRATCH").unwrap_or_else(|_| "/verif".into())
+}
+
 fn verif_seed() -> u64 {
     std::env::var("VERIF_SEED").ok().and_then(|x| x.parse().ok()).unwrap_or(1)
 }
@@ -158,7 +165,7 @@ fn minimise_main(args: &[String]) -> i32 {
 }
 
 fn minimise_inproc(prop: &str, seed: u64, entry: &Value, spurious: bool) -> Result<String, String> {
-    std::fs::create_dir_all("/verif/replays").ok();
+    std::fs::create_dir_all(format!("{}/replays", out_base())).ok();
     let class = entry.get("class").and_then(|x| x.as_str()).unwrap_or("").to_string();
     let sig = entry.get("signature").and_then(|x| x.as_str()).unwrap_or("").to_string();
     let index = entry.get("index").and_then(|x| x.as_u64());
@@ -168,7 +175,7 @@ fn minimise_inproc(prop: &str, seed: u64, entry: &Value, spurious: bool) -> Resu
         (_, Some(c)) => format!("{seed}-corpus{c}"),
         _ => format!("{seed}-x"),
     };
-    let path = format!("/verif/replays/{prop}-{tag}.json");
+    let path = format!("{}/replays/{prop}-{tag}.json", out_base());
     let value: Value = if prop == "C17" {
         let i = index.ok_or("no index")?;
         let (w, spec, _) = worker::c17_case(seed, i, spurious);
@@ -408,7 +415,7 @@ fn check(args: &[String]) -> i32 {
         children.push((w, c.spawn().expect("spawn worker")));
     }
     // watchdog: a world that loops without a seam operation cannot be pre-empted by the engine
-    let deadline = Instant::now() + Duration::from_secs(bsecs + 180 + bsecs / 2);
+    let deadline = Instant::now() + Duration::from_secs(bsecs + 75 + bsecs / 4);
     let mut hung: Vec<u64> = vec![];
     let mut failed: Vec<(u64, i32)> = vec![];
     for (w, mut c) in children {
@@ -469,12 +476,13 @@ fn check(args: &[String]) -> i32 {
     // a hung worker is a liveness failure of the run it was executing
     let mut exit = 0;
     for w in &hung {
-        std::fs::create_dir_all("/verif/replays").ok();
-        let path = format!("/verif/replays/{prop}-{seed}-hang-worker{w}.json");
+        std::fs::create_dir_all(format!("{}/replays", out_base())).ok();
+        let path = format!("{}/replays/{prop}-{seed}-hang-worker{w}.json", out_base());
         let hb = std::fs::read_to_string(format!("{dir}/hb_{w}")).unwrap_or_default();
         let v = json!({"property": prop, "kind": "hang", "class": "hang", "signature": "",
-            "detail": "worker did not finish: a simulated world loops without reaching any scheduling point",
-            "verif_seed": seed, "worker": w, "workers": nw, "last_heartbeat_index": hb.trim(), "tier": tier});
+            "detail": "worker did not finish: the run named by run_index loops without reaching any scheduling point",
+            "verif_seed": seed, "worker": w, "workers": nw, "run_index": hb.trim().parse::<u64>().ok(), "tier": tier,
+            "spurious": spurious});
         std::fs::write(&path, serde_json::to_string_pretty(&v).unwrap()).ok();
         tri.lines.push(format!("VIOLATION property={prop} replay={path}"));
         tri.violations += 1;
@@ -560,11 +568,11 @@ fn check(args: &[String]) -> i32 {
         "wall_s": wall,
         "violations": tri.violations,
     });
-    std::fs::create_dir_all("/verif/evidence").ok();
+    std::fs::create_dir_all(format!("{}/evidence", out_base())).ok();
     let ep = if spurious {
         format!("/verif/target/run/{prop}-spurious-evidence.json")
     } else {
-        format!("/verif/evidence/{prop}.json")
+        format!("{}/evidence/{prop}.json", out_base())
     };
     std::fs::write(&ep, serde_json::to_string_pretty(&evidence).unwrap()).expect("write evidence");
     println!(
@@ -602,6 +610,35 @@ fn worker_main(args: &[String]) -> i32 {
     0
 }
 
+/// Executes exactly one run (seed, index) of a property and prints its class.
+fn runone_main(args: &[String]) -> i32 {
+    let prop = args.get(2).cloned().unwrap_or_default();
+    let a = worker::WorkerArgs {
+        prop: prop.clone(),
+        seed: args.get(3).and_then(|x| x.parse().ok()).unwrap_or(1),
+        wid: args.get(4).and_then(|x| x.parse().ok()).unwrap_or(0),
+        nw: u64::MAX / 4,
+        budget: Duration::from_secs(1_000_000),
+        max_runs: 1,
+        out_dir: format!("/verif/target/run/runone-{}", std::process::id()),
+        tier: "quick".into(),
+        spurious: has_flag(args, "--with-spurious-wake"),
+        trace_runs: true,
+    };
+    world::init();
+    hook::install();
+    let out = match prop.as_str() {
+        "C17" => worker::run_c17(&a),
+        "C12" => worker::run_c12(&a),
+        "C15" => worker::run_c15(&a),
+        _ => return 2,
+    };
+    println!("{}", out.run_lines.join("\n"));
+    println!("{}", out.report.get("classes").cloned().unwrap_or_default());
+    let _ = std::fs::remove_dir_all(&a.out_dir);
+    0
+}
+
 fn replay_main(args: &[String]) -> i32 {
     let Some(path) = args.get(2) else {
         eprintln!("usage: pestsim replay <file>");
@@ -619,9 +656,37 @@ fn replay_main(args: &[String]) -> i32 {
     hook::install();
     let prop = v.get("property").and_then(|x| x.as_str()).unwrap_or("?").to_string();
     if v.get("kind").and_then(|x| x.as_str()) == Some("hang") {
-        println!("REPLAY kind=hang: re-run `./check {prop} --tier {}` with VERIF_SEED={} to re-execute the hung worker's runs",
-            v.get("tier").and_then(|x| x.as_str()).unwrap_or("quick"), v.get("verif_seed").and_then(|x| x.as_u64()).unwrap_or(1));
-        return 2;
+        // re-execute the named run in a child process under a wall-clock limit
+        let seed = v.get("verif_seed").and_then(|x| x.as_u64()).unwrap_or(1);
+        let Some(idx) = v.get("run_index").and_then(|x| x.as_u64()) else {
+            println!("REPLAY error: hang record without run index");
+            return 2;
+        };
+        let mut c = Command::new(self_exe());
+        c.args(["runone", &prop, &seed.to_string(), &idx.to_string()]);
+        if v.get("spurious").and_then(|x| x.as_bool()).unwrap_or(false) {
+            c.arg("--with-spurious-wake");
+        }
+        let mut child = c.stdout(Stdio::piped()).stderr(Stdio::null()).spawn().expect("spawn");
+        let t0 = Instant::now();
+        loop {
+            match child.try_wait() {
+                Ok(Some(_)) => {
+                    println!("REPLAY reproduced=false class=ok (run {idx} terminated in {:.1}s)", t0.elapsed().as_secs_f64());
+                    return 0;
+                }
+                _ => {
+                    if t0.elapsed() > Duration::from_secs(60) {
+                        let _ = child.kill();
+                        let _ = child.wait();
+                        println!("REPLAY reproduced=true class=hang hash_match=true detail=run {idx} does not terminate within 60 s of wall clock");
+                        println!("VIOLATION property={prop} replay={path}");
+                        return 1;
+                    }
+                    std::thread::sleep(Duration::from_millis(50));
+                }
+            }
+        }
     }
     match minimise::replay(&v) {
         Ok(r) => {
@@ -724,6 +789,7 @@ fn main() {
         Some("worker") => worker_main(&args),
         Some("replay") => replay_main(&args),
         Some("minimise") => minimise_main(&args),
+        Some("runone") => runone_main(&args),
         Some("selftest-determinism") => selftest(&args),
         _ => {
             eprintln!("usage: pestsim check|worker|replay|selftest-determinism ...");
